@@ -144,7 +144,8 @@ CLAIM = dict(
     category="proof",
     text="CBMC proofs over all addresses (within a small symbolic memory object), all stored values, all page counts and deltas: byte-exact "
          "little-endian contracts with assigns frames on the real load/store/grow/copy/fill functions, plus call-site contracts on the generated C of "
-         "every memory opcode (effective address base+offset without 32-bit wrap, designated helper, operand order).",
+         "every memory opcode (effective address base+offset without 32-bit wrap, designated helper, operand order). The load / store emitters of c.c are "
+         "under a per-opcode contract at every operand-stack height (opcode -> runtime function and result type, decoded offset, slots; thorough tier).",
     note="Trusted: CBMC memory model and libc models, spec transcription, realloc semantics. Memory objects are small (functions uniform in size). "
          "Known finding: wasmMemoryAllocate with a declared minimum of exactly 65536 pages (KNOWN-FINDING lines).",
     technique="CBMC code contracts: dfcc assigns frames + pre/postconditions on runtime memory functions; call-site contracts on generated code",
